@@ -63,6 +63,13 @@ pub enum UStep {
         #[serde(with = "hex")]
         isi: Vec<u8>,
     },
+    /// last step of a session: the peer sends one datagram with several frames, the application
+    /// reads only the first and then drops the connection (received-but-undelivered frames must
+    /// die with it, not turn up in some later connection)
+    Abandon {
+        #[serde(with = "hex")]
+        dgram: Vec<u8>,
+    },
     /// the application starts a read while nothing is queued and drops it after its first poll
     /// (select! with a branch that is ready at once); later datagrams must be unaffected
     /// (tokio adaptor only)
@@ -312,6 +319,20 @@ fn run_udp_inner(sc: &UdpSc) -> UdpRun {
                         events.push(UEv::Bounced { lost: lost_res, after: results, pre, down, tail });
                     },
                     UStep::CancelledRead => {},
+                    UStep::Abandon { dgram } => {
+                        if peer.send(dgram).is_err() {
+                            return UdpRun { events, harness_error: Some("peer send".into()) };
+                        }
+                        events.push(UEv::PeerSent { bytes: dgram.len() });
+                        let r = guarded(|| framed.read());
+                        let res = match r {
+                            Err(p) => AppRes::Other(format!("panic: {}", p)),
+                            Ok(Ok(p)) => AppRes::Pkt(format!("{:?}", p)),
+                            Ok(Err(e)) => AppRes::from_err(&e),
+                        };
+                        events.push(UEv::Read { res });
+                        break;
+                    },
                     UStep::HandshakeMidDatagram { dgram, isi } => {
                         if peer.send(dgram).is_err() {
                             return UdpRun { events, harness_error: Some("peer send".into()) };
@@ -500,6 +521,17 @@ fn run_udp_inner(sc: &UdpSc) -> UdpRun {
                             events.push(UEv::Bounced { lost: lost_res, after: results, pre, down, tail });
                         },
                         UStep::IdleRead => {},
+                        UStep::Abandon { dgram } => {
+                            peer.send(dgram).map_err(|e| e.to_string())?;
+                            events.push(UEv::PeerSent { bytes: dgram.len() });
+                            let res = match tokio::time::timeout(OP_TIMEOUT, framed.read()).await {
+                                Err(_) => AppRes::Other("no result within the 3 s guard although the peer's datagrams were already queued".into()),
+                                Ok(Ok(p)) => AppRes::Pkt(format!("{:?}", p)),
+                                Ok(Err(e)) => AppRes::from_err(&e),
+                            };
+                            events.push(UEv::Read { res });
+                            break;
+                        },
                         UStep::CancelledRead => {
                             let completed = match tokio::time::timeout(Duration::ZERO, framed.read()).await {
                                 Err(_) => None,
@@ -727,6 +759,13 @@ impl Prop for C08 {
         }
         // sentinel: anything duplicated or left over shows up before it
         steps.push(UStep::Burst(vec![gen::tiny(mode, 0xEE, 3)]));
+        if rng.chance(1, 8) {
+            let mut d = Vec::new();
+            for k in 0..rng.usize(2, 6) {
+                d.extend_from_slice(&gen::tiny(mode, 0x50 + k as u8, 3));
+            }
+            steps.push(UStep::Abandon { dgram: d });
+        }
         notes.sort();
         notes.dedup();
         UdpSc {
@@ -862,6 +901,31 @@ impl Prop for C08 {
                     if kas > 0 {
                         rep.probe("keepalive_over_udp");
                     }
+                },
+                UStep::Abandon { dgram } => {
+                    match next(&mut ev_i) {
+                        Some(UEv::PeerSent { .. }) => {},
+                        _ => break 'steps,
+                    }
+                    rep.fault("connection_abandoned_with_frames_buffered");
+                    let frames = split_frames(sc.mode, dgram);
+                    if let Some(f) = frames.first() {
+                        let want = render(&expect_for(sc.mode, false, &dgram[f.start..f.start + f.len]));
+                        match next(&mut ev_i) {
+                            Some(UEv::Read { res }) => {
+                                let got = render_res(res);
+                                h.write(got.as_bytes());
+                                if got != want {
+                                    rep.violations.push(v(
+                                        if matches!(res, AppRes::Pkt(_) | AppRes::Decode(_)) { "udp.wrong_packet" } else { "udp.read_failed" },
+                                        format!("{} last datagram of the session: expected {}, got {}", tag, want.chars().take(120).collect::<String>(), got.chars().take(160).collect::<String>()),
+                                    ));
+                                }
+                            },
+                            _ => {},
+                        }
+                    }
+                    break 'steps;
                 },
                 UStep::HandshakeMidDatagram { dgram, isi } => {
                     match next(&mut ev_i) {
@@ -1184,6 +1248,16 @@ impl Prop for C08 {
                     note: "prelude".into(),
                     trace: false,
                 });
+                let mut d = gen::tiny(mode, 0x51, 3);
+                d.extend_from_slice(&gen::tiny(mode, 0x52, 3));
+                d.extend_from_slice(&gen::tiny(mode, 0x53, 3));
+                v.push(UdpSc {
+                    imp,
+                    mode,
+                    steps: vec![UStep::Abandon { dgram: d }],
+                    note: "prelude".into(),
+                    trace: false,
+                });
             }
         }
         v
@@ -1233,6 +1307,7 @@ impl Prop for C08 {
             "crash_with_buffered_keepalive",
             "read_dropped_after_first_poll",
             "empty_datagram",
+            "connection_abandoned_with_frames_buffered",
             "handshake_with_frames_buffered",
             "unencodable_packet_written",
             "blocking_runs",
